@@ -114,6 +114,25 @@ def main(args):
                 json.dump(meta, open(os.path.join(sdir, d, 'meta.json'), 'w'), indent=1)
         finally:
             shutil.rmtree(tmp, ignore_errors=True)
+    bdir = os.path.join(HERE, 'selftest', 'benign')
+    for fn in sorted(os.listdir(bdir)) if os.path.isdir(bdir) else []:
+        if not fn.endswith('.diff'):
+            continue
+        name = 'benign-' + fn[:-5]
+        if only and name not in only and 'benign' not in only:
+            continue
+        tmp = scratch()
+        try:
+            r = subprocess.run(['patch', '-p1', '-s', '-i', os.path.join(bdir, fn)], cwd=tmp + '/repo', stdout=subprocess.DEVNULL, stderr=subprocess.DEVNULL)
+            if r.returncode != 0:
+                results.append((name, 'benign', 'SKIP (patch does not apply)'))
+                continue
+            res = run_checks(tmp, have)
+            hit = {p: r_ for p, r_ in res.items() if r_[0] != 0}
+            ok_all &= not hit
+            results.append((name, 'benign', 'silent' if not hit else 'FALSE ALARM ' + ', '.join(f'{p}:{r_[1][:2]}' for p, r_ in hit.items())))
+        finally:
+            shutil.rmtree(tmp, ignore_errors=True)
     for r in results:
         print('%-40s %-8s %s' % r)
     json.dump([{'id': a, 'kind': b, 'result': c} for a, b, c in results], open(os.path.join(HERE, 'selftest', 'last_run.json'), 'w'), indent=1)
